@@ -372,6 +372,8 @@ def run(ctx):
     check_labels_distinct(db, rep, "D18-LABELS-DISTINCT")
     from x86enc import check_listing_writer_reentrant
     check_listing_writer_reentrant(db, rep, "D19-LISTING-WRITER-REENTRANT")
+    from x86enc import check_listing_lines_terminated
+    check_listing_lines_terminated(db, rep, "D20-LISTING-LINES-TERMINATED")
     from vexroles import check_vex_rxb_roles
     nvr = check_vex_rxb_roles(db, rep, "D12-VEX-RXB-ROLES")
     if nvr < 5:
